@@ -30,13 +30,54 @@ INVARIANTS
   Emit
 """
 
+BFD_GEN = """SPECIFICATION GenSpec
+CONSTANTS
+  Nbrs = {%(nbrs)s}
+  Mults = {3, 5}
+  Asns = {65001, 65002}
+  MaxSteps = %(steps)d
+INVARIANTS
+  Emit
+"""
+
+BFD_INVS = ["Conf_OpSucceeded", "C20_BfdHelperSet", "C20_BfdHelperParams", "C20_BfdNoGoroutineLeak"]
+
+
+def bfd_group(run):
+    """BFD session helpers (goroutine + UDP socket per neighbour with BFD enabled): helper lifecycle under
+    management histories. Real sockets, so outside the bubble; schedules from BfdRegGen.tla."""
+    thorough = run.tier == "thorough"
+    if not run.replay:
+        res = v.tlc(run.sc, "BfdReg", "MCBfdReg.cfg", timeout=600, coverage=thorough, deadlock=False)
+        run.design(res, "BfdReg (BFD helper registry: call-site rules imply the property, 3 neighbours)")
+    plans = [("bfd-exh", "check", '"n1"', 4 if not thorough else 5, None),
+             ("bfd-walk", "simulate", '"n1", "n2", "n3"', 10 if not thorough else 14, 150 if not thorough else 1500)]
+    for grp, mode, nbrs, steps, num in plans:
+        if run.replay:
+            behs = run.replay_behaviours(grp)
+        else:
+            cfg = "BfdRegGen_%s.cfg" % grp
+            v.write_cfg(run.sc, cfg, BFD_GEN % {"nbrs": nbrs, "steps": steps})
+            if mode == "check":
+                res = v.tlc(run.sc, "BfdRegGen", cfg, workers=1, deadlock=False, timeout=900)
+            else:
+                res = v.tlc(run.sc, "BfdRegGen", cfg, mode="simulate", simulate="num=%d" % num, depth=steps + 2,
+                            seed=run.seed * 100 + 77, workers=1, deadlock=False, timeout=900)
+            v.require_design_ok(res, "BfdRegGen " + grp)
+            behs = sorted(set(res.printed)) if mode == "check" else res.printed
+        if not behs:
+            continue
+        traces = run.execute("c20bfd", "pkg/server", "^TestVerifC20Bfd$", behs, tag="c20-" + grp, race=True, timeout=1500)
+        run.validate("BfdRegTrace", "BfdRegTrace.cfg", traces, behs, group=grp)
+
+
 HEALTH = ["C20_NoDataRace", "C20_NoGoroutineLeak", "C20_NoDeadlock", "C20_CallsReturn"]
 
 
 def gen(run, g, num, seed, steps, chaos):
     cfg = "SpeakerGenC20_%s_%d.cfg" % (g, seed)
     v.write_cfg(run.sc, cfg, GEN % {"g": g, "steps": steps, "chaos": "TRUE" if chaos else "FALSE"})
-    res = v.tlc(run.sc, "SpeakerGen", cfg, mode="simulate", simulate="num=%d" % num, depth=steps + 1, seed=seed,
+    res = v.tlc(run.sc, "SpeakerGen", cfg, mode="simulate", simulate="num=%d" % num, depth=steps + 2, seed=seed,
                 workers=1, deadlock=False, timeout=900)
     v.require_design_ok(res, "SpeakerGen(C20) " + g)
     return res.printed
@@ -48,6 +89,9 @@ def main(run):
     if not run.replay:
         res = v.tlc(run.sc, "Concurrency", "Concurrency.cfg", timeout=1200, coverage=thorough)
         run.design(res, "Concurrency (lock protocol)")
+    bfd_group(run)
+    if os.environ.get("VERIF_C20_ONLY") == "bfd":   # development aid: the BFD group alone
+        return
     groups = ["rr", "addpath"] if not thorough else ["ebgp3", "mixed", "rr", "addpath"]
     num = 6 if not thorough else 12
     for gi, g in enumerate(groups):
